@@ -132,8 +132,11 @@ def rank_fn(spec):
                 if 'layer_grads' in spec.get('record', ()):
                     rec.setdefault('layer_grads', []).append({n: rm.combined_grad(m) for n, m in layers.items()})
                 if 'factors' in spec.get('record', ()):
-                    sd = p.state_dict()['layers']
-                    rec['factors'].append({n: (sd[n]['A'].clone(), sd[n]['G'].clone()) for n in sd})
+                    if spec.get('readback_steps') is not None and step_no not in spec['readback_steps']:
+                        rec['factors'].append(None)   # no read-back here: reading the factors waits on their futures
+                    else:
+                        sd = p.state_dict()['layers']
+                        rec['factors'].append({n: (sd[n]['A'].clone(), sd[n]['G'].clone()) for n in sd})
                 if 'held' in spec.get('record', ()) and spec.get('held_steps') is not None and step_no not in spec['held_steps']:
                     # no query at this boundary: communication started in this step may stay in flight into the next iteration
                     rec['held'].append(None)
